@@ -28,6 +28,8 @@ def remain(name):
 
 vals['DELREMAIN'] = remain('deletions_rerun.jsonl')
 vals['SWREMAIN'] = remain('swallow_rerun.jsonl')
+if os.path.exists(os.path.join(V, 'survey', 'deletions2_rerun2.jsonl')):
+    vals['DEL2REMAIN'] = remain('deletions2_rerun2.jsonl')
 p = os.path.join(V, 'DESIGN.md')
 s = open(p).read()
 for k, v in vals.items():
